@@ -33,6 +33,7 @@ type Obligation struct {
 	Time         float64
 	File         string
 	AllRes       []SolverResult
+	Cross        string // thorough tier: confirmed / unconfirmed by a solver of another family
 	Axioms       []string
 	NoAxioms     []string
 	Opaque       []string
